@@ -27,6 +27,7 @@ let ni s = try nat_of_int (int_of_string s) with _ -> fail ("nat expected: " ^ s
 
 let parse_effect (t : string) : effect =
   match String.split_on_char ':' t with
+  | ["dropvar"; x] -> EDropVar (ni x)
   | ["set"; x; v] -> ESet (ni x, zi v)
   | ["setarg"; x] -> ESetArg (ni x)
   | ["update"; x; d] -> EUpdate (ni x, zi d)
